@@ -7,7 +7,8 @@ Scope (stated bound), one net "net1", vms vm1..vmN with images image1..imageM ea
  table cases: op in check/get/set/unset/push/pop x state in {launch, root, 0root, boot, 0boot} x all 25 two-letter
    modes over {a,r,i,f,x} + the default x check_mode in a small list x target object of type nets | nets/vms |
    nets/vms/images (the LAST vm / image, all others are populated distractors) x state present/absent x root
-   present/absent x layouts (quick: 1x1 with all states, 2x2 with launch+boot; thorough: 1x1,2x2,1x2,2x1); plus variants: skip_types (addressed type / other types), read-only image, mode given with
+   present/absent x layouts (quick: 1x1 with all states, 2x2 with launch+boot; thorough: 1x1,2x2,1x2,2x1); plus
+   variants: skip_types (addressed type / other types), read-only image (or image_readonly globally), mode given with
    an object suffix, and multi-object targets (all images / all vms / every object) with every presence vector
    over {root+state, root only, neither} (quick: up to 4 objects and 10 modes; thorough: up to 7 objects).
  sequences: all sequences of <= 2 (quick) / <= 3 (thorough) steps from a fixed alphabet of check/get/set/unset/push/
@@ -483,7 +484,7 @@ def main():
             return 1 if fails else 0
         tier = os.environ.get("VERIF_TIER", "quick")
         random.seed(int(os.environ.get("VERIF_SEED", "0") or 0))     # the enumeration itself is deterministic
-        budgets = (80, 30) if tier == "quick" else (600, 500)      # seconds: table cases, sequences
+        budgets = (80, 30) if tier == "quick" else (800, 350)      # seconds: table cases, sequences
         cases, nontrivial, exhaustive = 0, set(), True
         per_ob, classes, kept, samples = {}, {}, {}, []
 
